@@ -636,6 +636,28 @@ func c14(x *mon.Ctx) {
 			x.Sample(map[string]any{"class": c.Class, "param": c.Param, "converted": conv, "quotes_accepted": acc, "must_fail": mustFail(c.effective())})
 		}
 	})
+	// the list and field cases once more with the library logging at verbosity 2 (what `check -verbosity 2` runs with: values that
+	// are compared are also rendered for the trace — lazily, only at that level): the same verdicts, the message left as it was
+	x.AtVerbosity(2, func() {
+		var vc []*mcase
+		for _, c := range cases {
+			if strings.HasPrefix(c.Class, "any-mr-td") || strings.HasPrefix(c.Class, "field/") || strings.HasPrefix(c.Class, "rtmrs") || strings.HasPrefix(c.Class, "pair/") {
+				cp := *c
+				cp.Class = "verbose/" + c.Class
+				vc = append(vc, &cp)
+			}
+		}
+		x.Each(len(vc), func(i int) {
+			c := vc[i]
+			x.Crumb(i, "policy-message", c)
+			p, conv, _ := messageCaseProblem(c)
+			if p != "" {
+				x.Violation(c.Class, c.Param, p+" (library logging at verbosity 2)", "policy-message", c)
+			}
+			x.Note("verbose/list-and-field-cases", c.Class+"/"+c.Param, conv, strings.Contains(p, "panics") || strings.Contains(p, "crashes"), true)
+		})
+		x.Require("verbose/list-and-field-cases", 100, 100, len(vc))
+	})
 	for _, n := range exactNames {
 		x.Require("field/"+n, 8, 6, 20)
 	}
